@@ -480,10 +480,12 @@ func (s *Storage) Find(id string) (p *Persistent, ok bool) {
 	return nil, false
 }
 
-// FindLoose is like [Storage.Find] but it also tries to find a persistent
-// client by IP address without zone.  It strips the IPv6 zone index from the
-// stored IP addresses before comparing, because querylog entries don't have it.
-// See TODO on [querylog.logEntry.IP].
+// FindLoose finds the persistent client of a request by its ClientID or the
+// text of its IP address id, and ip, which is that address, if any.  Unlike
+// [Storage.Find] it also tries to find a persistent client by IP address
+// without zone.  It strips the IPv6 zone index from the stored IP addresses
+// before comparing, because querylog entries don't have it.  See TODO on
+// [querylog.logEntry.IP].
 //
 // Note that multiple clients can have the same IP address with different zones.
 // Therefore, the result of this method is indeterminate.
@@ -491,7 +493,15 @@ func (s *Storage) FindLoose(ip netip.Addr, id string) (p *Persistent, ok bool) {
 	s.mu.Lock()
 	defer s.mu.Unlock()
 
-	p, ok = s.index.find(id)
+	// Follow the precedence of [Storage.ApplyClientFiltering], so that a
+	// request is attributed to the same client everywhere.  Don't use
+	// [index.find], since it also takes id for the text of a MAC address or of
+	// a subnet, neither of which a request can be identified by.
+	p, ok = s.index.findByClientID(id)
+	if !ok {
+		p, ok = s.index.findByIPLoose(ip)
+	}
+
 	if ok {
 		return p.ShallowClone(), ok
 	}
@@ -499,11 +509,6 @@ func (s *Storage) FindLoose(ip netip.Addr, id string) (p *Persistent, ok bool) {
 	foundMAC := s.dhcp.MACByIP(ip.Unmap())
 	if foundMAC != nil {
 		return s.FindByMAC(foundMAC)
-	}
-
-	p = s.index.findByIPWithoutZone(ip.Unmap())
-	if p != nil {
-		return p.ShallowClone(), true
 	}
 
 	return nil, false
